@@ -581,8 +581,8 @@ def case_lit(c, fmt, dim_entries, cshape, xshape, res_c, res_x):
     """dim_entries: [(entries in dict order, common)] of the real iindex objects given to ccube."""
     inferred = c["shape_mode"] == "inferred"
     return "(mk %s %s %s %s %s %s %s %s %s %s %s %s %s %s)" % (
-        AGG[c["kind"]], zlit(c["N"]), dims_lit(dim_entries), zlist(cshape), blit(inferred),
-        llit(c["arrs"], zlist), zlist(xshape), blit(inferred),
+        AGG[c["kind"]], zlit(c["N"]), dims_lit(dim_entries), zlist(cshape), blit(inferred and res_c is not None),
+        llit(c["arrs"], zlist), zlist(xshape), blit(inferred and res_x is not None),
         fact_lit(c), weights_lit(c), blit(c["ign"]), fmt_lit(fmt), obs_lit(res_c, fmt, c["K"] or 1), obs_lit(res_x, fmt, c["K"] or 1))
 
 
@@ -593,6 +593,10 @@ def case_lit(c, fmt, dim_entries, cshape, xshape, res_c, res_x):
 def classify(c, which, bad):
     nd = len(c["exts"])
     scalar = c["wkind"].startswith("scalar")
+    if which == "formats":
+        return "formats:disagree"
+    if which == "reencode":
+        return "reencode:%s-changed" % c["kind"]
     if bad.startswith("EXC"):
         if which == "x" and c["shape_mode"] == "inferred":
             return "xcube:shape-inference"
